@@ -40,7 +40,11 @@ def run(case) -> dict:
             out = drive.classify(lambda: offline.call_api(world, fl, "protect", b"x", SID, root_key_identifier=RK.root_key_id, cache=cache, **kw))
             if out.kind != "ok":
                 break
-            p = cms.parse_blob(out.value)["key_identifier"]
+            try:
+                p = cms.parse_blob(out.value)["key_identifier"]
+            except cms.CmsError as e:
+                out = drive.Outcome("raise", exc=e)
+                break
             from_cache = config == "rk" or len(dc.getkey_log) == before
             observed.append((t_ft, (p["l0"], p["l1"], p["l2"]), from_cache))
     viol = None
